@@ -365,6 +365,23 @@ def check_ctx(cx, chk):
         chk.ok("C14.ctx", "user_context_type", {"writers": w2})
 
 
+def check_leftrec_checks(cx, chk):
+    """A @check on a @leftrec rule that rejects a *grown* value is an ordinary failure of that growth step: the rule returns the
+    match grown so far (shared with C07.exit: an Ok best result is never replaced on the way out of the growth loop)."""
+    from . import wrapsem
+    n = 0
+    for w in wrapsem.cached(cx):
+        if not w.ok or not w.leftrec:
+            continue
+        n += 1
+        mine = [v for v in w.viol if v[0] == "exit" and v[1] == "replaces-ok-best"]
+        for (rid, detail, msg, site) in mine:
+            chk.violation("C14.check", "%s leftrec-growth-rejected" % w.tag, msg, site)
+        if not mine:
+            chk.ok("C14.check", "%s leftrec growth keeps the accepted match" % w.tag, {"wrapper": w.tag})
+    chk.floor("C14.check", "leftrec wrappers examined for rejected growth", n, 2)
+
+
 def run(cx, chk):
     chk.explanation = (
         "Structural rules over every generated rule wrapper with hooks: check calls take a reference to the final rule value "
@@ -375,6 +392,7 @@ def run(cx, chk):
         "level: the user-context flag has exactly the expected writers and both hook templates read it.")
     chk.assumptions = ["directive order of several @check's is compared with the grammar in the thorough tier (ebnf oracle)"]
     check_checks(cx, chk)
+    check_leftrec_checks(cx, chk)
     check_char_and_extern(cx, chk)
     check_ctx(cx, chk)
     # "the rule consumes exactly the number of bytes the extern function reports": advance_safe moves the offset and the remaining
